@@ -124,3 +124,27 @@ def truthy(target_dump: str) -> Callable[[ast.AST, bool], bool]:
         return pol is True and flow.dump(a) == target_dump
 
     return pred
+
+
+def allowed_lengths(facts, xdump: str, grid=range(0, 4)):
+    """Which lengths n (on a small grid) of the sequence whose source text is `xdump` are compatible with the path facts?
+    Understands comparisons between len(X) and an integer literal in either order, with either polarity, and the
+    truthiness of X itself. {0} means the path implies that X is empty."""
+    import operator
+    OPS = {ast.Eq: operator.eq, ast.NotEq: operator.ne, ast.Lt: operator.lt, ast.LtE: operator.le, ast.Gt: operator.gt, ast.GtE: operator.ge}
+    allowed = set(grid)
+    target = f"len({xdump})"
+    for a, pol in facts:
+        if isinstance(a, ast.Compare) and len(a.ops) == 1 and type(a.ops[0]) in OPS:
+            l, r = a.left, a.comparators[0]
+            dl, dr = flow.dump(l), flow.dump(r)
+            f = OPS[type(a.ops[0])]
+            if dl == target and isinstance(r, ast.Constant) and isinstance(r.value, int):
+                allowed = {n for n in allowed if f(n, r.value) is pol}
+            elif dr == target and isinstance(l, ast.Constant) and isinstance(l.value, int):
+                allowed = {n for n in allowed if f(l.value, n) is pol}
+        elif flow.dump(a) == xdump:
+            allowed = {n for n in allowed if (n > 0) is pol}
+        elif flow.dump(a) == target:
+            allowed = {n for n in allowed if (n > 0) is pol}
+    return allowed
